@@ -111,7 +111,7 @@ CHECKS = {
    design="4 (C18), 3.11"),
  "C10": dict(
    level="model_checking",
-   text="FrpsLifecycle models a proxy as an ordered list of server resources acquired step by step with roll-back on the first conflict and release on termination; TLC exhaustively explores 5 colliding proxy definitions (port, route, name conflicts) with all interleavings of registration, partial failure and termination (2.5M states) against HeldEqualsLive, LiveHoldsAll, ReRegistrationPossible, OthersUntouched; a real frps is cycled through 15 definitions of every proxy type, all four termination paths and immediate identical re-registrations, and TLC checks after every step that the resource tables read through the inspectors equal exactly the resources of the live proxies, that a registration is refused iff something it needs is held by a live proxy, and that the goroutine / descriptor footprint does not grow over cycles (Trace_FrpsLifecycle); the port / quota pipeline with every rollback point is validated against FrpsPorts.",
+   text="FrpsLifecycle models a proxy as an ordered list of server resources acquired step by step with roll-back on the first conflict and release on termination; TLC exhaustively explores 5 colliding proxy definitions (port, route, name conflicts) with all interleavings of registration, partial failure and termination (2.5M states) against HeldEqualsLive, LiveHoldsAll, ReRegistrationPossible, OthersUntouched; a real frps is cycled through 15 definitions of every proxy type, all four termination paths and immediate identical re-registrations, and TLC checks after every step that the resource tables read through the inspectors equal exactly the resources of the live proxies, that a registration is refused iff something it needs is held by a live proxy, and that the goroutine / descriptor footprint does not grow over cycles (Trace_FrpsLifecycle); the port / quota pipeline with every rollback point is validated against FrpsPorts; five real frps / frpc pairs (limit none / server / client, encryption + compression, mux) have an http proxy closed by a client reload while idle backend connections sit in frps' pool, and a counting backend shows whether they are released.",
    note="Trusted: TLC, the verif-only inspectors. Crash points are the steps of the registration pipeline (driven through conflicts and gates), not arbitrary instruction boundaries; closing of wrapped transports under traffic is checked by C01.",
    technique="TLA+ specs FrpsLifecycle / FrpsPorts model-checked with TLC + trace validation of real frps executions (Trace_FrpsLifecycle, Trace_FrpsPorts)",
    design="4 (C10), 3.1-3.4"),
